@@ -5,9 +5,12 @@ this one reports whichever rounds were re-run and says which were not."""
 import glob, json, os, re, subprocess
 V = os.path.dirname(os.path.dirname(os.path.abspath(__file__)))
 res, rounds = [], []
-for f in sorted(glob.glob(os.path.join(V, 'seeded', 'results', 'r*.json'))):
-    res += json.load(open(f))
+byname = {}
+for f in sorted(glob.glob(os.path.join(V, 'seeded', 'results', '*.json'))):      # later files (zz-rerun-*) override earlier entries
+    for r in json.load(open(f)):
+        byname[r['mutant']] = r
     rounds.append(os.path.basename(f)[:-5])
+res = list(byname.values())
 allseeds = sorted(os.path.basename(d) for d in glob.glob(os.path.join(V, 'seeded', 'C*')) if os.path.isdir(d))
 done = {r['mutant'].split('/')[-1] for r in res}
 head = subprocess.run(['git', '-C', V, 'rev-parse', '--short', 'HEAD'], capture_output=True, text=True).stdout.strip()
